@@ -48,6 +48,10 @@ DecFails(e) ==
    \o (IF right /\ e.err = "" /\ Has(e, "serr") /\ (e.serr # "" \/ ~Has(e, "sval")) THEN <<"C06.decode">>
        ELSE IF right /\ e.err = "" /\ Has(e, "serr") /\ e.sval # exp THEN <<"C06.decode">>
        ELSE <<>>)
+   \* ... and into a long-lived MACCommand value that served the same CID (in either direction) before
+   \o (IF right /\ e.err = "" /\ Has(e, "cerr") /\ LayoutSize(lay) > 0 /\ (e.cerr # "" \/ ~Has(e, "cval")) THEN <<"C06.decode", "C07.stream">>
+       ELSE IF right /\ e.err = "" /\ Has(e, "cval") /\ e.cval # exp THEN <<"C06.decode", "C07.stream">>
+       ELSE <<>>)
 
 QuantCmds(e) == [i \in 1..Len(e.cmds) |->
                    IF e.dir = "down" /\ e.cmds[i].cid = 13 /\ ~Has(e.cmds[i], "raw") /\ e.cmds[i].p # <<>>
